@@ -16,7 +16,8 @@ def shape(v, depth=0):
             s = shape(x, depth + 1)
             if not inner or inner[-1] != s:
                 inner.append(s)
-        return t + "(" + ",".join(inner) + ")"
+        star = "*" if t == "array" and len(v["x"]) >= 3 else ""
+        return t + star + "(" + ",".join(inner) + ")"
     if t == "described":
         return "described(" + shape(v["d"], depth + 1) + "," + shape(v["x"], depth + 1) + ")"
     if t in ("string", "symbol", "binary"):
